@@ -10,3 +10,5 @@ except ScanError as e:
 print("path", r.path, "ok", r.ok, "verified", r.verified, "errors", r.errors, "wall %.1f"%r.wall)
 for f in r.failures: print("FAIL", f['kind'], f['fn'], f['clause'], f['src']); print(f['rendered'][:1500])
 for f in r.undecided[:6]: print("UNDECIDED", f['message'][:200]); print(f['rendered'][:1800])
+if '-t' in sys.argv:
+    for n, st in sorted(r.fn_stats.items(), key=lambda kv: -(kv[1].get("time_us") or 0))[:12]: print("  %8.2fs rlimit=%s %s" % ((st.get("time_us") or 0)/1e6, st.get("rlimit"), n))
